@@ -115,6 +115,38 @@ func scenario(res *evid.Result, idx int, root string) {
 	for k := 0; k < r.Intn(3); k++ {
 		keep = append(keep, gen.Function(r, fmt.Sprintf("N%d", k), gen.SigII, 3+r.Intn(6)))
 	}
+	if idx%4 == 1 {
+		// a function rewritten from scratch under its old name whose OLD body is the twin of a
+		// function that is merely renamed in the same revision (and sorts after it)
+		twin := func(name string) gen.Func {
+			return gen.Func{Name: name, Sig: gen.SigII, Tags: []string{"rewritten-twin"}, Text: fmt.Sprintf(`func %s(a int, b int) (res int) {
+	for i := 0; i < a&7; i++ {
+		tick()
+		res += h1(i, b)
+	}
+	f := func(x int) int { return x + b }
+	return f(res)
+}
+`, name)}
+		}
+		base.Funcs = append(base.Funcs, twin("encHeader"), twin("encTrailer"))
+		keep = append(keep, gen.Func{Name: "encHeader", Sig: gen.SigIS, Tags: []string{"rewritten-twin"}, Text: `func encHeader(n int, s string) (res int) {
+	if len(s) > n {
+		return len(hs1(s)) + fact(n&3)
+	}
+	switch {
+	case isEven(n):
+		res = len(hs2(s))
+	default:
+		res = -1
+	}
+	return res
+}
+`}, twin("writeTrailer"))
+		plan["encTrailer"], rename["encTrailer"] = "renamed", "writeTrailer"
+		plan["encHeader"] = "edited"
+		res.Count("scenarios_with_rewritten_twin", 1)
+	}
 	if idx%8 == 0 {
 		// functions beyond the fingerprinter's size guard (they all carry the same marker
 		// instead of a fingerprint): one is only renamed, one is removed, an unrelated one of
@@ -255,6 +287,11 @@ func scenario(res *evid.Result, idx int, root string) {
 		for g, m := range renamedOld {
 			gi := oldI[g]
 			if m != want || g == oname || gi.topo == nil {
+				continue
+			}
+			if _, stillThere := newI[g]; stillThere {
+				// g still exists under its own name in the new file: it is told apart from f by
+				// its name (name-identical functions belong together), so it is no excuse
 				continue
 			}
 			if topology.TopologySimilarity(gi.topo, wi.topo) == 1 && topology.TopologySimilarity(gi.topo, info.topo) == 1 {
